@@ -44,6 +44,16 @@ func drawC07(t *rapid.T) c07Scenario {
 			Stream: rapid.IntRange(0, 3).Draw(t, "pstream"),
 		})
 	}
+	// an AV1 stream may carry, in one random access unit before the Close point, a sequence header
+	// that does not parse: the rotation that needs the init file fails
+	if rapid.IntRange(0, 3).Draw(t, "bogusAV1") == 0 {
+		for k, op := range sc.Script.Ops {
+			if k > 2 && k <= sc.Plan.CloseAfterOp && op.Kind == mux.KindRA && sc.Script.Config.Tracks[op.Track].Codec == "av1" && rapid.IntRange(0, 3).Draw(t, "bogusHere") == 0 {
+				sc.Script.Ops[k].InBand = mux.AV1BogusHeader + 1
+				break
+			}
+		}
+	}
 	sc.Plan.PauseClose = rapid.Bool().Draw(t, "pauseClose")
 	sc.Plan.CloseTwice = rapid.IntRange(0, 3).Draw(t, "closeTwice") == 0
 	sc.Plan.SlowHint = sc.Script.Config.Variant == mux.VariantLL && rapid.IntRange(0, 3).Draw(t, "slowHint") == 0
@@ -87,7 +97,7 @@ func execC07(sc c07Scenario) core.Outcome {
 		o.Labels = append(o.Labels, "directory-deleted")
 	}
 	if r.WriteFailed {
-		o.Labels = append(o.Labels, "write-failed-on-storage")
+		o.Labels = append(o.Labels, "write-failed")
 	}
 	if r.SlowTransfer {
 		o.Labels = append(o.Labels, "slow-client-mid-transfer")
